@@ -31,7 +31,9 @@ func buildPlugin(kind string, w *fakes.KMSWorld, regions []string, pref string) 
 		return k, nil
 	}
 	return v2kms.NewBuilder(aead.NewAES256GCM(), arn).WithPreferredRegion(pref).WithAWSConfig(awsv2.Config{}).
-		WithKMSFactory(func(cfg awsv2.Config, _ ...func(*kmsv2svc.Options)) v2kms.AWSClient { return fakes.KMSV2{R: w.Regions[cfg.Region]} }).Build()
+		WithKMSFactory(func(cfg awsv2.Config, _ ...func(*kmsv2svc.Options)) v2kms.AWSClient {
+			return fakes.KMSV2{R: w.Regions[cfg.Region]}
+		}).Build()
 }
 
 // TestAWSPluginsWipeDataKey: both AWS KMS plugins over fake regional endpoints that
